@@ -43,7 +43,7 @@ theorem C01_gate (cfg : Cfg) (ps0 : PS) (h0 : verifiedNow ps0 = false) (rs : Lis
   gate_trace cfg rs ps0 false (by simp [h0])
 
 /-- **Gate, every history of events** — pair-setup requests on any connection, bystander activity, and
-    the owner unpairing the accessory (last admin removed) at any point.  The ghost `e.demo` is: a good M3
+    the owner unpairing the accessory (last admin removed) or changing the setup code at any point.  The ghost `e.demo` is: a good M3
     was received since the latest served M1 AND no accepted M5 has consumed that exchange since
     (single use).  Every O2 / O3 needs it; every O1 answers a good M3. -/
 theorem C01_gate_events (cfg : Cfg) (ps0 : PS) (h0 : verifiedNow ps0 = false) (evs : List Ev) :
